@@ -179,6 +179,19 @@ def model_of(msgs, n):
     return model
 
 
+def msg_digest(m):
+    return digest(
+        [
+            m.stream_id,
+            np.asarray(m.subset_indexes).astype(int).tolist(),
+            [(r.package, r.test, pl.flags_json(r.results)) for r in m.results],
+            seams.anyarray_to_json(m.data),
+            seams.anyarray_to_json(m.tinp),
+            seams.anyarray_to_json(m.zinp),
+        ],
+    )
+
+
 def lazily(msgs, order):
     for i in order:
         if i < len(msgs):
@@ -205,6 +218,7 @@ def execute(scn):
     except Exception as e:  # noqa: BLE001 - producing the messages is not this property's subject
         return {"violations": [], "stats": stats, "events": 0, "event_digest": "", "schedule_digest": "", "end_state": "src-failed:" + exc_signature(e), "nontrivial": False}
     model = model_of(msgs, n)
+    before = [msg_digest(m) for m in msgs]
     if any(d["dup"] for d in model.values()):
         bump("overlap_skipped")  # not generated on purpose; stream windows are disjoint by construction
     masks = [np.asarray(m.subset_indexes) for m in msgs]
@@ -298,6 +312,11 @@ def execute(scn):
                 if bad:
                     V.append(violation(PROP, "e", "list|dict", "forms-disagree", f"{key} rows {bad[:5]}"))
         outcomes.append(out)
+    # the messages themselves are not the collector's to change
+    after = [msg_digest(m) for m in msgs]
+    if after != before:
+        k = next(j for j in range(len(after)) if after[j] != before[j])
+        V.append(violation(PROP, "c", "collect", "message-changed-by-collecting", f"message {k} ({msgs[k].stream_id}) was modified while being collected"))
     # g. every delivery order gives the same outcome
     if not any(d["dup"] for d in model.values()):
         for oi, o in enumerate(outcomes[1:], 1):
